@@ -9,7 +9,7 @@ open Result
 def Exact.toQ : Exact → Ext Rat
   | .nan => .nan | .minf => .minf | .pinf => .pinf
   | .frac n d => .fin ((n : Rat) / (d : Rat))
-  | .sqrt _ => .nan
+  | .sqrt _ _ => .nan
 
 theorem Exact.toQ_ofExt (a : Ext Int) : (Exact.ofExt a).toQ = a.map Int.cast := by
   cases a <;> simp [Exact.ofExt, Exact.ofInt, Exact.toQ, Ext.map]
